@@ -1,6 +1,7 @@
 """C14 — keep-alive: pings in time, dead peers detected, live peers never timed out."""
 
-PROP = {'areas': [{'area': 'engine',
+PROP = {'areas': [{'also': ['C08:monitor:803'],
+            'area': 'engine',
             'corpus': ['corpus/engine/d11_half_encoded_connect_service_time.script',
                        'corpus/engine/d12_keep_alive_one_second.script',
                        'corpus/engine/d14_close_with_queued_disconnect.script',
@@ -59,6 +60,8 @@ META = {'design_ref': 'DESIGN.md section 7 / C14',
                '0 a next ping time exists and is at most K seconds after the latest transmission / CONNACK; a service call at or after it arms a PINGRESP '
                "deadline; a service call at or after an armed deadline fails the connection). That the DRIVERS turn the engine's reported service times into "
                'calls is sampled in real time on the real tokio / threaded clients (area c14r: keep-alive 1 s with an answering / a silent broker, QoS 1 '
-               'publish with an ack timeout against a broker that never acknowledges; generous margins, inconclusive runs discarded).',
+               'publish with an ack timeout against a broker that never acknowledges; generous margins, inconclusive runs discarded). The clause of '
+               'mon_c08_timers about the PINGRESP deadline and the next ping time (the engine asks to be serviced no later than those) is also attributed to '
+               'this property: a keep-alive failure that the drivers are never woken for does not happen "at that deadline".',
  'technique': 'machine-checked proof in Coq over the engine model + lock-step correspondence of the extracted model with the implementation + extracted '
               'monitors on the implementation trace'}
